@@ -64,6 +64,12 @@ Proof. vm_compute. reflexivity. Qed.
 Lemma expr_impl_generated : gen_expr_impl_violations = 0 /\ gen_expr_operators = 34.
 Proof. split; vm_compute; reflexivity. Qed.
 
+(* every registered #expr callable belongs to a size class for which ExprSizeProofs.size_linear holds (none is the exact power) *)
+Lemma expr_classes_generated :
+  length gen_expr_classes = gen_expr_operators /\
+  forallb (fun p : str * ExprSizeModel.ecls => ExprSizeModel.linear_cls (snd p)) gen_expr_classes = true.
+Proof. split; vm_compute; reflexivity. Qed.
+
 (* the generic binding rule is what one expects (non-vacuity of `accepts`) *)
 Lemma accepts_examples :
   (* a plain def f(self, args) called bound with one argument *)
